@@ -777,6 +777,23 @@ func scoreSequences(r *ev.Run, ver, lv int) {
 				checkScoreOf(r, ver, level, lv, bg.ver, t, o, []string{fmt.Sprintf("constructor result, field %s assigned a defined value", m.Name), "Decode(" + st + ") on it"})
 				n++
 			}
+			// (h) the view at the scored level taken from the constructor result, a rejected Decode, the
+			// accepted Decode, then the score through the OLD view (round 5, C02-A-r5: a Decode that
+			// restores a backup copy of the receiver after a failure orphans views taken before)
+			if lv < level {
+				for _, rej := range []string{"CVSS:2.0/AV:N/AC:L", "", "CVSS:9/", "garbage"} {
+					d := lib.New(ver, level)
+					old := lib.Sub(d, lv)
+					if o, _, _ := lib.Decode(d, rej); o != nil {
+						continue
+					}
+					if o, err, _ := lib.Decode(d, s0); err != nil || o == nil {
+						continue
+					}
+					checkScoreOf(r, ver, lv, lv, bg.ver, lang.Project(ver, lv, tok0), old, []string{"d := " + spec.LevelNames[level] + " constructor result", "v := the " + spec.LevelNames[lv] + " view of d", "d.Decode(" + rej + "), rejected", "d.Decode(" + s0 + ")", "score of v"})
+					n++
+				}
+			}
 			// (g) every observer (and the views' observers) on the constructor result, then Decode on it;
 			// and the same with the base fields assigned first
 			for variant := 0; variant < 2; variant++ {
@@ -887,6 +904,24 @@ func scoreSequences(r *ev.Run, ver, lv int) {
 						continue
 					}
 					checkScoreOf(r, ver, level, lv, bg.ver, vt, o, []string{"(nil).Decode(" + f + ") fails", "(nil).Decode(" + sv + ")"})
+					// ... and once more after further nil-receiver decodes of ANOTHER vector at every level
+					// (round 5, C04-A-r5: the throw-away object of a rejected nil-receiver decode and its
+					// embedded objects end up on two spare lists, so two later results share one of them)
+					other := scoreBackgrounds(ver)[0]
+					for _, cand := range scoreBackgrounds(ver) {
+						if canonicalWritten(ver, 0, cand.ver, lang.Project(ver, 0, cand.tok)) != canonicalWritten(ver, 0, bg.ver, lang.Project(ver, 0, bg.tok)) {
+							other = cand
+							break
+						}
+					}
+					hist := []string{"(nil).Decode(" + f + ") fails", "o := (nil).Decode(" + sv + ")"}
+					for l2 := 0; l2 < 3; l2++ {
+						s2 := canonicalWritten(ver, l2, other.ver, lang.Project(ver, l2, other.tok))
+						lib.Decode(lib.Nil(ver, l2), s2)
+						hist = append(hist, "(nil "+spec.LevelNames[l2]+").Decode("+s2+")")
+					}
+					checkScoreOf(r, ver, level, lv, bg.ver, vt, o, append(hist, "score of o"))
+					n++
 				}
 			}
 		}
